@@ -354,7 +354,8 @@ def run(gen, scenario, moment=None, reinit=False, idle=8000):
         for t in asyncio.all_tasks(loop):
             if t is not me:
                 t.cancel()
-        await asyncio.sleep(0)
+        for _ in range(4):
+            await asyncio.sleep(0)
 
     asyncio.set_event_loop(loop)
     try:
